@@ -37,6 +37,10 @@ OPS = {
     'o:$eur/2': ('num', 'q/k', 'EUR', 'D:5.01', 'i:2'),
     'o:$eur*k': ('num', 'q*k', 'EUR', 'D:1.01', 'D:0.5'),
     'o:$xab/3': ('num', 'q/k', 'XAB', 'D:0.40', 'i:3'),
+    'o:$eur*0': ('num', 'q*k', 'EUR', 'D:4.00', 'i:0'),
+    # apportioning one quantum three ways (portions of zero, one of which
+    # receives the dispersed remainder)
+    'o:$alloc': ('alloc', 'EUR', 'D:0.01', ['i:1', 'i:1', 'i:1']),
     'o:n1/x0:qq': ('bin', '/', 'qq', 'n1', 'i:6', 'x0', 'i:3'),
     'o:n1/x1:qu': ('bin', '/', 'qu', 'n1', 'i:6', 'x1', 'i:1'),
     'o:n1/x1:uu': ('bin', '/', 'uu', 'n1', 'i:1', 'x1', 'i:1'),
@@ -49,6 +53,8 @@ def operands(name):
     spec = OPS[name]
     if spec[0] == 'bin':
         return [spec[3], spec[5]]
+    if spec[0] == 'alloc':
+        return [spec[1]]
     return [spec[2]]
 
 
@@ -86,6 +92,13 @@ def canonical(w, name):
             _, kind, s, a, n = spec
             u = w.units[s]
             r = u.qty_cls(O.dec(a), u) ** n
+        elif spec[0] == 'alloc':
+            _, s, a, ratios = spec
+            u = w.units[s]
+            portions, rem = u.qty_cls(O.dec(a), u).allocate(
+                [O.dec(r) for r in ratios])
+            return ('alloc', tuple(str(O.fr(p.amount)) for p in portions),
+                    str(O.fr(rem.amount)))
         elif spec[1] == 'q/k':
             _, form, s, a, k = spec
             u = w.units[s]
@@ -246,7 +259,7 @@ DECLS_N = ['NB', 'n1/x0', 'n1/x1']
 OPS_N = [n for n in OPS if n.startswith('o:n1')]
 ROOT_M = ['EUR', 'XAB']
 NAMES_M = ['m:UP', 'm:FLOOR', 'm:HALF_UP', 'o:$eur/2', 'o:$eur*k',
-           'o:$xab/3', 'o:$eur/2#2']
+           'o:$xab/3', 'o:$eur/2#2', 'o:$alloc', 'o:$eur*0']
 FOCUS_V = ['V', 'x1/y1', 'vdup', 'vt2', 'o:vt2/v0:qq', 'o:x1/y1:qq', 'o:x1/y1:uu', 'o:x1/y1:uq',
            'o:v*y1', 'o:y1*v', 'o:x1/y1:qq#2']
 FOCUS_P = ['P', 'S', 'o:x1*y1:uq', 'o:x1*y1:qq', 'o:y1*x1:qu', 'o:x1*x1',
